@@ -60,6 +60,8 @@ pub trait AnyS: Sample + Copy + Debug + Send + Sync + 'static {
     fn distinct(k: u64) -> Self;
     /// bit-exact comparison (floats by bit pattern except that all NaNs are equal)
     fn same(self, o: Self) -> bool;
+    /// an arbitrary sample, distinct for distinct k < min(2^bits, 2^24) (no magnitude guarantee)
+    fn nth(k: u64) -> Self;
 }
 
 macro_rules! impl_anys_int {
@@ -80,6 +82,13 @@ macro_rules! impl_anys_int {
                 <$T as IntS>::from_raw(f.from_amp(amp))
             }
             #[inline] fn same(self, o: Self) -> bool { self.raw() == o.raw() }
+            #[inline] fn nth(k: u64) -> Self {
+                let f = <$T as IntS>::FMT;
+                let total: u128 = 1u128 << f.bits;
+                // odd multiplier => bijection modulo 2^bits
+                let r = ((k as u128).wrapping_mul(0x9e37_79b9_7f4a_7c15_u128 | 1).wrapping_add(17)) % total;
+                <$T as IntS>::from_raw(f.min() + r as i128)
+            }
         }
     )*};
 }
@@ -114,6 +123,10 @@ impl AnyS for f32 {
     fn same(self, o: Self) -> bool {
         self.to_bits() == o.to_bits() || (self.is_nan() && o.is_nan())
     }
+    #[inline]
+    fn nth(k: u64) -> Self {
+        ((k % (1 << 24)) as f32 - 8_000_000.5) * (1.0 / 16_777_216.0)
+    }
 }
 
 impl AnyS for f64 {
@@ -145,6 +158,10 @@ impl AnyS for f64 {
     fn same(self, o: Self) -> bool {
         self.to_bits() == o.to_bits() || (self.is_nan() && o.is_nan())
     }
+    #[inline]
+    fn nth(k: u64) -> Self {
+        (k as f64 - 8_000_000.25) * (1.0 / 16_777_216.0)
+    }
 }
 
 /// Invoke `$m!{ T }` style macro for each integer format type.
@@ -163,5 +180,16 @@ macro_rules! for_int_types {
         $m!(u32);
         $m!(U48);
         $m!(u64);
+    };
+}
+
+/// Invoke `$m!(N)` for every frame width 1..=32.
+#[macro_export]
+macro_rules! for_widths {
+    ($m:ident) => {
+        $m!(1); $m!(2); $m!(3); $m!(4); $m!(5); $m!(6); $m!(7); $m!(8);
+        $m!(9); $m!(10); $m!(11); $m!(12); $m!(13); $m!(14); $m!(15); $m!(16);
+        $m!(17); $m!(18); $m!(19); $m!(20); $m!(21); $m!(22); $m!(23); $m!(24);
+        $m!(25); $m!(26); $m!(27); $m!(28); $m!(29); $m!(30); $m!(31); $m!(32);
     };
 }
